@@ -1088,6 +1088,45 @@ pub fn check_a(ctx: &Ctx, case: &CaseA, counting: bool, at: &mut Option<Only>) -
 			Err(e) => fail!("known-header-replaced-by-mutant", "true header vanished: {:?}", e),
 		}
 	}
+	// the same, one step earlier in a block's life: the true header is known HEADER-FIRST only (no body
+	// yet) and a full block arrives whose header has the same proof (hence the same hash) but another
+	// timestamp / cumulative difficulty. Its proof of work does not cover those bytes: it must be refused,
+	// must not become the head and must not replace the stored header
+	if f_to < n {
+		let t = hdr(f_to + 1).clone();
+		cf.c().process_block_header(&t, Options::NONE).map_err(|e| Fail::new("valid-header-rejected:Header", format!("header-first delivery of the true header at height {}: {:?}", f_to + 1, e)))?;
+		let body = &blocks[f_to];
+		for (what, m) in [
+			("timestamp", {
+				let mut m = t.clone();
+				m.timestamp = t.timestamp + Duration::seconds(1);
+				m
+			}),
+			("total_difficulty", {
+				let mut m = t.clone();
+				m.pow.total_difficulty = Difficulty::from_num(t.total_difficulty().to_num() + 1_000_000);
+				m
+			}),
+		] {
+			let before_head = cf.c().head().map_err(|e| Fail::new("head-err", format!("{:?}", e)))?;
+			let before_hh = hh(&cf)?;
+			let r = deliver(Path::Block, &cf, &m, &[], body)?;
+			if counting {
+				ev.eval();
+				ev.class(&format!("A:same_hash_block_after_header_first:{}:{}", what, if r.is_ok() { "returned_ok" } else { "refused" }));
+			}
+			ensure!(r.is_err(), format!("mutant-accepted:SameHashBlockAfterHeaderFirst:{}", what), "chain of {} blocks: header at height {} known header-first, then a full block with the same proof but another {}: accepted", n, f_to + 1, what);
+			let after_head = cf.c().head().map_err(|e| Fail::new("head-err", format!("{:?}", e)))?;
+			ensure!(after_head == before_head && hh(&cf)? == before_hh, format!("head-moved-on-reject:SameHashBlockAfterHeaderFirst:{}", what), "head moved from {:?} to {:?}", before_head, after_head);
+			match cf.c().get_block_header(&t.hash()) {
+				Ok(h) => ensure!(h == t, "known-header-replaced-by-mutant", "stored header at height {} replaced by a same-hash block header with another {}", f_to + 1, what),
+				Err(e) => fail!("known-header-replaced-by-mutant", "true header vanished: {:?}", e),
+			}
+		}
+		// and the true block still goes through
+		let r = deliver(Path::Block, &cf, &t, &[], body)?;
+		ensure!(r.is_ok(), "valid-header-rejected:Block", "true block at height {} refused after same-hash impostors: {:?}", f_to + 1, r);
+	}
 	if dbg {
 		eprintln!("A: done {:.2}s", t_start.elapsed().as_secs_f64());
 	}
